@@ -476,6 +476,51 @@ TRANSPARENT = {
     'std::result::Result::unwrap': 0, 'std::result::Result::expect': 0,
 }
 PAYLOAD_VARIANTS = ('Some', 'Ok', 'Continue')
+BOX_INTERNALS = ('std::boxed::Box', 'std::ptr::Unique', 'std::ptr::NonNull')
+
+
+_CORE_VIA_LOCAL = re.compile(r'(^|<impl |[ (<&])\w+::core::')
+
+def norm_path(p):
+    """generic-free def path.  `::<..>` argument lists are dropped, `<impl T>` segments are kept
+    (with T generic-free), and `somecrate::core::` (core reached through a local
+    `extern crate core`) is printed as `core::`."""
+    out = []
+    i = 0
+    n = len(p)
+    while i < n:
+        if p.startswith('::<', i) and not p.startswith('::<impl ', i):
+            depth = 0
+            j = i + 2
+            while j < n:
+                if p[j] == '<':
+                    depth += 1
+                elif p[j] == '>' and p[j - 1] != '-':
+                    depth -= 1
+                    if depth == 0:
+                        break
+                j += 1
+            i = j + 1
+            continue
+        if p[i] == '<' and not p.startswith('<impl ', i) and i > 0 and (p[i - 1].isalnum() or p[i - 1] == '_'):
+            # Type<Args> inside an impl header
+            depth = 0
+            j = i
+            while j < n:
+                if p[j] == '<':
+                    depth += 1
+                elif p[j] == '>' and p[j - 1] != '-':
+                    depth -= 1
+                    if depth == 0:
+                        break
+                j += 1
+            i = j + 1
+            continue
+        out.append(p[i])
+        i += 1
+    s = ''.join(out)
+    s = _CORE_VIA_LOCAL.sub(lambda m: m.group(1) + 'core::', s)
+    return s
 
 
 def norm_callee(t):
@@ -485,8 +530,16 @@ def norm_callee(t):
     if not c:
         return None
     if 'trait' in c:
-        return '%s::%s' % (c['trait'], strip_generics(c['path']).rsplit('::', 1)[-1])
-    return strip_generics(c.get('res') or c['path'])
+        return '%s::%s' % (c['trait'], norm_path(c['path']).rsplit('::', 1)[-1])
+    return norm_path(c.get('res') or c['path'])
+
+
+def resolved_callee(t):
+    """generic-free *resolved* callee (impl method for trait calls when resolution succeeded)"""
+    c = t.get('callee')
+    if not c:
+        return None
+    return norm_path(c.get('res') or c['path'])
 
 
 class Prov:
@@ -553,7 +606,7 @@ class Prov:
         key = (l, depth)
         if key in self.memo:
             return self.memo[key]
-        if l in stack or depth <= 0:
+        if l in stack or depth <= 0 or len(stack) > 200:
             return {('top',)}
         out = set()
         if 1 <= l <= self.b.argc:
@@ -563,21 +616,31 @@ class Prov:
             if j == 'term':
                 if d['dest']['p']:
                     continue
-                out |= self.of_call(d, bi, depth - 1, stack)
+                out |= self.of_call(d, bi, depth, stack)
             else:
                 if d['place']['p']:
                     # partial write (field init of an aggregate built in place)
                     continue
-                out |= self.of_rvalue(d['rv'], depth - 1, stack)
+                out |= self.of_rvalue(d['rv'], depth, stack)
         for rv in self.stores().get(l, []):
             for t in self.of_rvalue(rv, depth - 1, stack):
                 out.add(('stored', t))
         if len(out) > self.cap:
-            out = set(list(out)[:self.cap]) | {('top',)}
+            out = set(sorted(out, key=repr)[:self.cap]) | {('top',)}
         if not out:
             out = {('undef', l)}
-        self.memo[key] = out
+        if not any(term_contains(t, lambda x: x == ('top',)) for t in out):
+            self.memo[key] = out
         return out
+
+    def per_def(self, l):
+        """term sets of each definition of local l separately (no cap across definitions)"""
+        for (bi, j, d) in self.b.defs().get(l, []):
+            if j == 'term':
+                if not d['dest']['p']:
+                    yield bi, self.of_call(d, bi, self.depth, (l,))
+            elif not d['place']['p']:
+                yield bi, self.of_rvalue(d['rv'], self.depth, (l,))
 
     def of_place(self, pl, depth=None, stack=()):
         depth = self.depth if depth is None else depth
@@ -589,7 +652,9 @@ class Prov:
             nb = set()
             for b in bases:
                 if k == 'Field':
-                    if b[0] == 'dc' and b[2] in PAYLOAD_VARIANTS and e['i'] == 0:
+                    if e.get('adt') in BOX_INTERNALS:
+                        nb.add(b)
+                    elif b[0] == 'dc' and b[2] in PAYLOAD_VARIANTS and e['i'] == 0:
                         nb.add(b[1])
                     elif b[0] == 'agg' and e['i'] < len(b[2]) and not e.get('upvar'):
                         nb.add(b[2][e['i']])
@@ -627,7 +692,7 @@ class Prov:
         if 'val' in o:
             return o['val']
         if 'fn' in o:
-            return ('fn', strip_generics(o['fn'].get('res') or o['fn']['path']))
+            return ('fn', norm_path(o['fn'].get('res') or o['fn']['path']))
         if 'closure' in o:
             return ('closure', o['closure'])
         if 'def' in o:
@@ -646,6 +711,7 @@ class Prov:
                 return inner
             return {('cast', rv['kind'], t) for t in inner}
         if k == 'BinaryOp':
+            depth -= 1
             ls = self.of_operand(rv['l'], depth, stack)
             rs = self.of_operand(rv['r'], depth, stack)
             return {('binop', rv['op'], a, b) for a in list(ls)[:6] for b in list(rs)[:6]}
@@ -656,6 +722,7 @@ class Prov:
         if k == 'Discriminant':
             return {('discr', t) for t in self.of_place(rv['place'], depth, stack)}
         if k == 'Aggregate':
+            depth -= 1
             if rv['agg'] == 'Adt':
                 name = '%s::%s' % (rv['adt'], rv['variant'])
             elif rv['agg'] == 'Closure':
@@ -684,6 +751,7 @@ class Prov:
             return {('ix', b, kk) for b in base}
         if n == 'std::iter::Iterator::next':
             return {('iter', b) for b in self.of_operand(args[0], depth, stack)}
+        depth -= 1
         if n is None:
             # indirect call through a fn pointer / dyn Fn value
             fs = self.of_operand(t['func'], depth, stack) if 'func' in t else {('top',)}
